@@ -6,8 +6,11 @@ import (
 	"fmt"
 	"os"
 	"path/filepath"
+	"runtime"
 	"strings"
 	"sync"
+	"sync/atomic"
+	"time"
 
 	"github.com/ipfs/go-cid"
 	carv2 "github.com/ipld/go-car/v2"
@@ -49,6 +52,9 @@ type C20Case struct {
 	Roots  string   `json:"roots,omitempty"`  // kit root set; "" = "a"
 	FailAt int      `json:"failat,omitempty"` // family failing-close: the stream's FailAt-th Write (and every later one) fails
 }
+
+// c20BadKey is the key of the op "put:bad": not a CID.
+const c20BadKey = "bad-key"
 
 var c20Ops = []string{"put:a", "put:b", "has:a", "cb", "cb1", "close", "has:b"}
 
@@ -173,11 +179,12 @@ type c20Cb struct {
 // order, once-callbacks removed. samePut selects whether a callback registered from inside a
 // callback takes part in the Put that is in progress (after all earlier registrations) or only
 // from the next Put on; the property fixes neither, so both models are kept.
-func c20Fire(list []c20Cb, log []string, n int, samePut bool) ([]c20Cb, []string) {
+// The log holds callback ids only: the property does not fix the argument of the callback.
+func c20Fire(list []c20Cb, log []string, samePut bool) ([]c20Cb, []string) {
 	var later []c20Cb
 	for i := 0; i < len(list); i++ {
 		r := list[i]
-		log = append(log, fmt.Sprintf("%d:%d", r.id, n))
+		log = append(log, fmt.Sprintf("%d", r.id))
 		if r.spawn && !r.spawned {
 			list[i].spawned = true
 			child := c20Cb{id: r.id + 1000, once: true}
@@ -193,6 +200,137 @@ func c20Fire(list []c20Cb, log []string, n int, samePut bool) ([]c20Cb, []string
 		}
 	}
 	return append(list, later...), log
+}
+
+// c20Model is one legal callback history: the registered callbacks, the invocations so far and the
+// variant of c20Fire it follows.
+type c20Model struct {
+	list    []c20Cb
+	log     []string
+	samePut bool
+}
+
+func (m c20Model) key() string {
+	return fmt.Sprintf("%v|%v|%v", m.samePut, m.list, m.log)
+}
+
+// c20Step advances every model over one Put. mayNotFire: the Put failed and started nothing (its
+// initialisation failed, or it was rejected before the output was started); the property does not
+// say whether such a Put fires (and uses up) callbacks, so each model is kept in both variants.
+func c20Step(models []c20Model, mayNotFire bool) []c20Model {
+	var out []c20Model
+	seen := map[string]bool{}
+	add := func(m c20Model) {
+		if k := m.key(); !seen[k] {
+			seen[k] = true
+			out = append(out, m)
+		}
+	}
+	for _, m := range models {
+		if mayNotFire {
+			add(m)
+		}
+		l, g := c20Fire(append([]c20Cb(nil), m.list...), append([]string(nil), m.log...), m.samePut)
+		add(c20Model{list: l, log: g, samePut: m.samePut})
+	}
+	return out
+}
+
+// c20ReentrantBlocks is set once an OnPut called from inside a callback did not return: the
+// implementation takes the writer's lock in OnPut. The property quantifies over sequences of calls,
+// not over nested ones, so this is recorded as an outcome and nested registrations are no longer tried.
+var c20ReentrantBlocks atomic.Bool
+
+// c20ReentrantWait bounds the wait for a nested OnPut whose goroutine is neither done nor seen waiting
+// (a starved machine); the decision normally comes from the state of the goroutine, see c20NestedOnPut.
+const c20ReentrantWait = 5 * time.Minute
+
+// c20IsFile reports whether path is a regular file.
+func c20IsFile(path string) bool {
+	fi, err := os.Stat(path)
+	return err == nil && fi.Mode().IsRegular()
+}
+
+// c20Goid returns the id of the calling goroutine (as printed in stack dumps).
+func c20Goid() string {
+	b := make([]byte, 64)
+	b = b[:runtime.Stack(b, false)]
+	if f := strings.Fields(string(b)); len(f) > 1 {
+		return f[1]
+	}
+	return ""
+}
+
+// c20Parked reports whether goroutine id is waiting for a lock or a channel, as opposed to running,
+// waiting for a processor or being in a system call.
+func c20Parked(id string) bool {
+	if id == "" {
+		return false
+	}
+	buf := make([]byte, 4<<20)
+	dump := string(buf[:runtime.Stack(buf, true)])
+	hdr := "goroutine " + id + " ["
+	at := -1
+	if strings.HasPrefix(dump, hdr) {
+		at = 0
+	} else if k := strings.Index(dump, "\n"+hdr); k >= 0 {
+		at = k + 1
+	}
+	if at < 0 {
+		return false
+	}
+	state := dump[at+len(hdr):]
+	if k := strings.IndexAny(state, "],"); k >= 0 {
+		state = state[:k]
+	}
+	// (other wait states, such as a GC assist, pass by themselves)
+	for _, p := range []string{"sync.", "semacquire", "chan ", "select"} {
+		if strings.HasPrefix(state, p) {
+			return true
+		}
+	}
+	return false
+}
+
+// c20NestedOnPut calls reg (an OnPut made from inside a callback, i.e. while Put is running) in a helper
+// goroutine and waits until it has returned (true) or is blocked (false: seen waiting three times in a
+// row, or c20ReentrantWait over). done is closed when reg has returned. No wall-clock decision is
+// involved as long as the helper gets to run at all.
+func c20NestedOnPut(reg func()) (returned bool, done chan struct{}) {
+	done = make(chan struct{})
+	idc := make(chan string, 1)
+	go func() {
+		defer close(done)
+		idc <- c20Goid()
+		reg()
+	}()
+	id := <-idc
+	for k := 0; k < 100; k++ { // the common case: reg returns at once
+		select {
+		case <-done:
+			return true, done
+		default:
+			runtime.Gosched()
+		}
+	}
+	deadline := time.After(c20ReentrantWait)
+	parked := 0
+	for {
+		select {
+		case <-done:
+			return true, done
+		case <-deadline:
+			return false, done
+		case <-time.After(5 * time.Millisecond):
+		}
+		if c20Parked(id) {
+			if parked++; parked >= 3 {
+				return false, done
+			}
+		} else {
+			parked = 0
+		}
+	}
 }
 
 func runC20(c any, x *kit.Ctx) {
@@ -289,7 +427,37 @@ func runC20(c any, x *kit.Ctx) {
 	var refInitErr error // a stream whose writer could not be constructed: a direct caller has no writer
 	initFailed := false  // some Put found the target impossible to open / the writer impossible to construct
 	started := false     // the reference writer exists: from now on the outputs must be identical
-	refPut := func(key string, data []byte) error {
+	// probeOpen: can a direct caller open a file at the reference's path (same obstacle as dpath)?
+	probeOpen := func() error {
+		if cs.Target == "path" || !isPath {
+			return nil
+		}
+		f, err := os.OpenFile(rpath, os.O_CREATE|os.O_TRUNC|os.O_WRONLY, 0o644)
+		if err == nil {
+			f.Close()
+			os.Remove(rpath)
+		}
+		return err
+	}
+	// refCanInit: could the reference writer be constructed now? (no side effects)
+	refCanInit := func() bool {
+		switch {
+		case direct != nil:
+			return true
+		case refInitErr != nil:
+			return false
+		case isPath:
+			return probeOpen() == nil
+		case cs.Target == "stream":
+			_, err := storage.NewWritable(drvPlain{&bytes.Buffer{}}, roots, directOpts...)
+			return err == nil
+		}
+		_, err := storage.NewWritable(&c20Mem{}, roots, directOpts...)
+		return err == nil
+	}
+	// dErr: what the deferred writer's Put returned (it may have failed for another reason, a bad key,
+	// after it got its file open)
+	refPut := func(key string, data []byte, dErr error) error {
 		if direct == nil {
 			if refInitErr != nil {
 				return refInitErr
@@ -300,12 +468,12 @@ func runC20(c any, x *kit.Ctx) {
 			case isPath:
 				// a direct caller opens the file first. Whether that is possible is decided by the file
 				// system (rpath has the same obstacle as dpath); the bytes then go to an in-memory file.
-				if cs.Target != "path" {
-					var f *os.File
-					if f, err = os.OpenFile(rpath, os.O_CREATE|os.O_TRUNC|os.O_WRONLY, 0o644); err == nil {
-						f.Close()
-						os.Remove(rpath)
-					}
+				// How the deferred writer opens its path is not fixed by the property: one that gets
+				// its file open where a plain os.OpenFile fails (it creates missing directories, ...) is
+				// from then on compared with a direct writer all the same.
+				if err = probeOpen(); err != nil && (dErr == nil || c20IsFile(dpath)) {
+					x.Outcome("beyond-statement:open-more-permissive:" + cs.Target)
+					err = nil
 				}
 				if err == nil {
 					w, err = storage.NewWritable(&rmem, roots, directOpts...)
@@ -330,8 +498,9 @@ func runC20(c any, x *kit.Ctx) {
 		return direct.Put(drv.Ctx, key, data)
 	}
 
-	var modelA, modelB []c20Cb // callbacks registered from a callback join the running Put / the next Put
-	var gotLog, wantA, wantB []string
+	// callbacks registered from a callback join the running Put / the next Put
+	models := []c20Model{{samePut: true}, {samePut: false}}
+	var gotLog []string
 	nextID := 0
 	closed := false
 	fail := func(i int, sig, f string, a ...any) {
@@ -370,8 +539,16 @@ func runC20(c any, x *kit.Ctx) {
 	var preOut []byte
 	var preWrites int
 	cbTiming := ""
+	// the argument of the callback ("the number of bytes being written") is documented, but not part of the property
+	curLen, cbArg := 0, ""
+	// nested registration under a watchdog (see c20ReentrantBlocks)
+	reentrantBlocked := false
+	var pendingReg chan struct{}
 	record := func(id, n int) {
-		gotLog = append(gotLog, fmt.Sprintf("%d:%d", id, n))
+		gotLog = append(gotLog, fmt.Sprintf("%d", id))
+		if n != curLen && cbArg == "" {
+			cbArg = fmt.Sprintf("callback %d got %d for a Put of %d bytes", id, n, curLen)
+		}
 		ex, out := output()
 		if cbTiming == "" && (ex != preExists || dst.writes != preWrites || !bytes.Equal(out, preOut)) {
 			cbTiming = fmt.Sprintf("callback %d ran with output exists=%v len=%d writes=%d; before the Put: exists=%v len=%d writes=%d",
@@ -386,48 +563,128 @@ func runC20(c any, x *kit.Ctx) {
 			record(id, n)
 			if spawn && !fired {
 				fired = true
-				x.Count("reentrant_registrations", 1)
-				dw.OnPut(func(n int) { record(id+1000, n) }, true)
+				if c20ReentrantBlocks.Load() {
+					reentrantBlocked = true
+					return
+				}
+				// the nested OnPut runs in a helper goroutine this callback waits for: should it block
+				// (OnPut taking the lock Put holds), the callback returns, Put completes and releases
+				// the lock, and the helper ends; the case is then over
+				returned, done := c20NestedOnPut(func() { dw.OnPut(func(n int) { record(id+1000, n) }, true) })
+				if returned {
+					x.Count("reentrant_registrations", 1)
+				} else {
+					c20ReentrantBlocks.Store(true)
+					reentrantBlocked = true
+					pendingReg = done
+				}
 			}
 		}, once)
-		modelA = append(modelA, c20Cb{id: id, once: once, spawn: spawn})
-		modelB = append(modelB, c20Cb{id: id, once: once, spawn: spawn})
+		for k := range models {
+			models[k].list = append(models[k].list, c20Cb{id: id, once: once, spawn: spawn})
+		}
+	}
+	// untouched: "" while nothing was written to the stream and nothing was created or changed in the
+	// directory of the target; otherwise what was
+	untouched := func() string {
+		switch cs.Target {
+		case "stream":
+			if dbuf.Len() > 0 || dst.writes > 0 {
+				return fmt.Sprintf("output exists (%d bytes, %d write calls)", dbuf.Len(), dst.writes)
+			}
+			return ""
+		case "stream-file":
+			var size int64 = -1
+			if fi, err := dfile.Stat(); err == nil {
+				size = fi.Size()
+			}
+			if size > 0 || dst.writes > 0 {
+				return fmt.Sprintf("output exists (%d bytes, %d write calls)", size, dst.writes)
+			}
+		}
+		// no file at the target and nothing else created next to it
+		if l := c20List(ddir); l != baseList {
+			return fmt.Sprintf("the directory of the target changed: [%s] was [%s]", l, baseList)
+		}
+		if preBytes != nil {
+			if got, _ := os.ReadFile(dpath); !bytes.Equal(got, preBytes) {
+				return "the existing file at the target path was touched"
+			}
+		}
+		return ""
 	}
 
-	// one Put, through whichever entry point `call` uses
-	doPut := func(i int, key string, data []byte, call func() error) {
+	// one Put, through whichever entry point `call` uses; true = the case ends here
+	doPut := func(i int, key string, data []byte, call func() error) bool {
 		if closed {
 			if err := call(); !errors.Is(err, storage.ErrClosed) {
 				fail(i, "put-after-close", "Put returned %v want ErrClosed", err)
 			}
-			return
+			return false
 		}
 		if nextID > 0 { // some callback was registered (whether or not the model still expects it to fire)
 			ex, out := output()
 			preExists, preOut, preWrites = ex, append([]byte(nil), out...), dst.writes
 		}
+		curLen = len(data)
 		err := call()
-		// callbacks: once per Put in registration order; once-callbacks exactly once
-		modelA, wantA = c20Fire(modelA, wantA, len(data), true)
-		modelB, wantB = c20Fire(modelB, wantB, len(data), false)
+		if reentrantBlocked {
+			// Put has returned, so the lock is free and a blocked nested OnPut completes
+			if pendingReg != nil {
+				select {
+				case <-pendingReg:
+				case <-time.After(20 * time.Second):
+				}
+			}
+			info(i, "reentrant-onput-blocks", "OnPut called from a callback did not return while Put was running")
+			x.Count("reentrant_blocked_cases", 1)
+			return true
+		}
 		if cbTiming != "" {
 			info(i, "callback-timing", "%s", cbTiming)
 		}
+		if cbArg != "" {
+			info(i, "callback-arg", "%s", cbArg)
+		}
 		hadFailed := initFailed
 		wasStarted := started
-		derr := refPut(key, data)
-		if (err != nil) != (derr != nil) {
-			if err != nil && !wasStarted && hadFailed {
-				fail(i, "put-retry-after-failed-open", "Put returned %v after an earlier failed initialisation; a direct writer can be created now and its Put returns %v", err, derr)
+		nothing := direct == nil && err != nil && untouched() == ""
+		switch {
+		case nothing && key == c20BadKey:
+			// A key that is not a CID is outside what Put accepts. Whether such a Put, as the first
+			// one, starts the output (header only) or is rejected before anything is created is not
+			// fixed by the property: when nothing was started, the reference is not started either.
+			if refCanInit() {
+				x.Outcome("beyond-statement:invalid-first-put-starts-nothing:" + cs.Target)
 			} else {
-				fail(i, "put-result", "Put returned %v, the direct writer %v", err, derr)
+				initFailed = true
+				x.Count("failed_inits", 1)
+			}
+		case nothing && isPath && hadFailed:
+			// A Put after an initialisation that failed: whether the writer tries again (as a direct
+			// caller could) or keeps reporting the failure is not fixed by the property. It started
+			// nothing, so the reference is not started and "no output" stays asserted.
+			if refCanInit() {
+				info(i, "put-retry-after-failed-open", "Put returned %v after an earlier failed initialisation; a direct writer can be created now", err)
+			} else {
+				x.Count("failed_inits", 1)
+			}
+		default:
+			derr := refPut(key, data, err)
+			if (err != nil) != (derr != nil) {
+				// the property is about the output (compared below), not about what Put returns
+				info(i, "put-result", "Put returned %v, the direct writer %v", err, derr)
 			}
 		}
+		// callbacks: once per Put in registration order; once-callbacks exactly once. A Put that failed
+		// and started nothing may or may not have fired them.
+		models = c20Step(models, err != nil && !started)
 		if started && !wasStarted && direct != nil {
 			if isIdentityKey(key) && !cs.Opts.StoreID {
 				x.Count("first_put_writes_no_section", 1)
 			}
 		}
+		return false
 	}
 
 	type pendingBWO struct {
@@ -442,18 +699,21 @@ func runC20(c any, x *kit.Ctx) {
 		w, commit, err := dw.BlockWriteOpener()(linking.LinkContext{Ctx: drv.Ctx})
 		if err != nil {
 			// opening only buffers; the store is touched by the commit. After Close an error is acceptable.
+			// (BlockWriteOpener is not named by the property: only the Put its commit performs is)
 			if !closed {
-				fail(i, "bwo-open", "BlockWriteOpener returned %v", err)
+				info(i, "bwo-open", "BlockWriteOpener returned %v", err)
 			}
 			return nil
 		}
 		// two writes, so that the committed content is the concatenation
 		h := len(b.Data) / 2
 		if _, err := w.Write(b.Data[:h]); err != nil {
-			fail(i, "bwo-open", "block writer Write returned %v", err)
+			info(i, "bwo-open", "block writer Write returned %v", err)
+			return nil
 		}
 		if _, err := w.Write(b.Data[h:]); err != nil {
-			fail(i, "bwo-open", "block writer Write returned %v", err)
+			info(i, "bwo-open", "block writer Write returned %v", err)
+			return nil
 		}
 		return &pendingBWO{key: b.Cid.KeyString(), data: b.Data, commit: commit, link: cidlink.Link{Cid: b.Cid}}
 	}
@@ -461,6 +721,7 @@ func runC20(c any, x *kit.Ctx) {
 	for i, op := range cs.Ops {
 		x.Transition(1)
 		kind, arg, _ := strings.Cut(op, ":")
+		end := false
 		switch kind {
 		case "cb", "cb1":
 			register(kind == "cb1", false)
@@ -490,8 +751,9 @@ func runC20(c any, x *kit.Ctx) {
 			}
 			if direct != nil {
 				want, werr := direct.Has(drv.Ctx, b.Cid.KeyString())
+				// (what Has answers before Close is documented, but not part of the property)
 				if (err != nil) != (werr != nil) || has != want {
-					fail(i, "has", "Has(%s)=%v,%v; the direct writer: %v,%v", arg, has, err, want, werr)
+					info(i, "has", "Has(%s)=%v,%v; the direct writer: %v,%v", arg, has, err, want, werr)
 				}
 				break
 			}
@@ -503,19 +765,19 @@ func runC20(c any, x *kit.Ctx) {
 				break
 			}
 			if err != nil || has {
-				fail(i, "has", "Has(%s)=%v,%v want false before the first Put", arg, has, err)
+				info(i, "has", "Has(%s)=%v,%v want false before the first Put", arg, has, err)
 			}
 		case "put":
-			key, data := "bad-key", []byte("x")
+			key, data := c20BadKey, []byte("x")
 			if arg != "bad" {
 				b := kit.B(arg)
 				key, data = b.Cid.KeyString(), b.Data
 			}
-			doPut(i, key, data, func() error { return dw.Put(drv.Ctx, key, data) })
+			end = doPut(i, key, data, func() error { return dw.Put(drv.Ctx, key, data) })
 		case "bwo":
 			if p := bwoOpen(i, arg); p != nil {
 				x.Count("bwo_commits", 1)
-				doPut(i, p.key, p.data, func() error { return p.commit(p.link) })
+				end = doPut(i, p.key, p.data, func() error { return p.commit(p.link) })
 			}
 		case "bwo-open":
 			if p := bwoOpen(i, arg); p != nil {
@@ -526,7 +788,7 @@ func runC20(c any, x *kit.Ctx) {
 				p := pending
 				pending = nil
 				x.Count("bwo_commits", 1)
-				doPut(i, p.key, p.data, func() error { return p.commit(p.link) })
+				end = doPut(i, p.key, p.data, func() error { return p.commit(p.link) })
 			}
 		case "close":
 			err := dw.Close()
@@ -537,9 +799,9 @@ func runC20(c any, x *kit.Ctx) {
 				break
 			}
 			closed = true
-			// (what Close returns after an initialisation that never succeeded is not fixed by the property)
+			// (what the first Close returns is not fixed by the property: the finalized bytes are compared below)
 			if err != nil && !(initFailed && !started) {
-				fail(i, "close-error", "Close returned %v", err)
+				info(i, "close-error", "Close returned %v", err)
 			}
 			if direct != nil {
 				if err := direct.Finalize(); err != nil {
@@ -556,40 +818,22 @@ func runC20(c any, x *kit.Ctx) {
 		default:
 			panic("unknown op " + op)
 		}
+		if end {
+			return
+		}
 		// observers after every step
-		var dfileSize int64 = -1
 		if dfile != nil {
 			// the stream belongs to the caller: never closed by the writer
-			if fi, err := dfile.Stat(); err != nil {
+			if _, err := dfile.Stat(); err != nil {
 				info(i, "stream-closed", "the caller's file is no longer usable: %v", err)
-			} else {
-				dfileSize = fi.Size()
 			}
 		}
 		if dst.closes != 0 {
 			info(i, "stream-closed", "the caller's stream was closed %d time(s)", dst.closes)
 		}
 		if !started {
-			switch cs.Target {
-			case "stream":
-				if dbuf.Len() > 0 || dst.writes > 0 {
-					fail(i, "eager-output", "output exists (%d bytes, %d write calls) before the first successful initialisation", dbuf.Len(), dst.writes)
-				}
-			case "stream-file":
-				if dfileSize > 0 || dst.writes > 0 {
-					fail(i, "eager-output", "output exists (%d bytes, %d write calls) before the first successful initialisation", dfileSize, dst.writes)
-				}
-				fallthrough
-			default:
-				// no file at the target and nothing else created next to it
-				if l := c20List(ddir); l != baseList {
-					fail(i, "eager-output", "the directory of the target changed before the first successful initialisation: [%s] was [%s]", l, baseList)
-				}
-				if preBytes != nil {
-					if got, _ := os.ReadFile(dpath); !bytes.Equal(got, preBytes) {
-						fail(i, "eager-output", "the existing file at the target path was touched before the first Put")
-					}
-				}
+			if what := untouched(); what != "" {
+				fail(i, "eager-output", "%s before the first successful initialisation", what)
 			}
 		} else {
 			_, got := output()
@@ -597,12 +841,23 @@ func runC20(c any, x *kit.Ctx) {
 				fail(i, "bytes-differ", "output (%d bytes) differs from the directly constructed writer's (%d bytes): %x vs %x", len(got), len(want), clip(got), clip(want))
 			}
 		}
-		if g := strings.Join(gotLog, ","); g != strings.Join(wantA, ",") && g != strings.Join(wantB, ",") {
-			if strings.Join(wantA, ",") == strings.Join(wantB, ",") {
-				fail(i, "callbacks", "callback log %v want %v", gotLog, wantA)
-			} else {
-				fail(i, "callbacks", "callback log %v want %v (callbacks registered from a callback join the running Put) or %v (join the next Put)", gotLog, wantA, wantB)
+		g, legal := strings.Join(gotLog, ","), false
+		for _, m := range models {
+			if g == strings.Join(m.log, ",") {
+				legal = true
+				break
 			}
+		}
+		if !legal {
+			var want []string
+			seen := map[string]bool{}
+			for _, m := range models {
+				if w := fmt.Sprint(m.log); !seen[w] && len(want) < 6 {
+					seen[w] = true
+					want = append(want, w)
+				}
+			}
+			fail(i, "callbacks", "callback log (ids in invocation order) %v want %s (variants: a callback registered from a callback joins the running or the next Put; a Put that failed and started nothing fires or does not)", gotLog, strings.Join(want, " or "))
 		}
 		if x.Failed() {
 			return
@@ -610,8 +865,8 @@ func runC20(c any, x *kit.Ctx) {
 	}
 	key := fmt.Sprintf("%s|%+v|%v|%v|%s|%v", cs.Target, cs.Opts, cs.V1Off, cs.Pre, rootSet, cs.Ops)
 	x.State(key)
-	x.Outcome(fmt.Sprintf("started=%v closed=%v cbs=%v initFailed=%v", started, closed, len(wantA) > 0, initFailed))
-	if started && len(wantA) > 0 {
+	x.Outcome(fmt.Sprintf("started=%v closed=%v cbs=%v initFailed=%v", started, closed, len(gotLog) > 0, initFailed))
+	if started && len(gotLog) > 0 {
 		x.Nontrivial(key)
 	}
 }
@@ -719,9 +974,10 @@ func init() {
 			"bwo {BlockWriteOpener open+write+commit, open a, open b, commit, Put a/b, Has a, OnPut x2, Close}; " +
 			"failing-open {Put a/b/non-CID, Has, OnPut x2, Close, fix} x {parent directory missing, path is a directory} (fix removes the obstacle); " +
 			"reentrant {OnPut(always/once) of a callback that registers a once-callback, OnPut x2, Put a/b, Close}; roots (core alphabet) x root sets {a b, nil, empty, a a}; failing-close {Put a/b, Has a, OnPut x2, Close} at depth 5/6 x {stream whose 1st..4th Write and all later ones fail, path target with an index codec that cannot be written}: whatever Close returns, every later Has/Put/Close gives ErrClosed and no callback fires. " +
-			"Oracle: differential against a storage.NewWritable constructed at the first Put that can construct it and driven with the same puts (bytes after every step, Put/Has error-ness and Has value); before that no file, no change in the target's directory, zero Write/WriteAt calls on the stream; " +
-			"callback log = once per non-closed Put in registration order, once-callbacks exactly once (a callback registered from a callback may join the running or the next Put); " +
-			"ErrClosed from Has/Put/commit/Close after Close; recorded as outcome classes only (documented, but not part of the statement): output observed inside a callback equals the output before the Put, caller's stream never closed, no descriptor of the target left after Close; non-trivial = sequence in which output started and a callback fired",
+			"Oracle: differential against a storage.NewWritable constructed at the first Put that can construct it (or at which the deferred writer got its file open) and driven with the same puts (bytes after every step); before that no file, no change in the target's directory, zero Write/WriteAt calls on the stream; " +
+			"callback log (callback ids) = once per non-closed Put in registration order, once-callbacks exactly once (a callback registered from a callback may join the running or the next Put; a Put that failed and started nothing may or may not fire); " +
+			"ErrClosed from Has/Put/commit/Close after Close; recorded as outcome classes 'beyond-statement:*' only (documented or current behaviour, but not part of the statement): output observed inside a callback equals the output before the Put, the callback's argument is the length of the data, caller's stream never closed, no descriptor of the target left after Close, " +
+			"error-ness of Put and the result of Has equal the direct writer's, the first Close returns nil, BlockWriteOpener opens without error, a path whose open failed is tried again by the next Put, a non-CID key as first Put starts the output, a path is opened like os.OpenFile does (missing directories are an error), OnPut can be called from inside a callback (run in a helper goroutine that is watched until it returns or is seen waiting; once it blocked, nested registrations are skipped and the cases end there); non-trivial = sequence in which output started and a callback fired",
 		Bound: func(tier string) map[string]any {
 			m := map[string]any{}
 			for _, f := range c20Families {
@@ -736,8 +992,9 @@ func init() {
 		Assumptions: []string{
 			"storage.NewWritable is the reference for the bytes (its own correctness is C01/C05)",
 			"roots and option slices are not mutated by the caller between construction and the first Put (the property does not say when they are captured)",
-			"the result of Has for an identity CID before the first Put, and of Has/Close after an initialisation that failed and never succeeded, is not asserted (not fixed by the property)",
-			"a path whose initialisation failed is retried by the next Put like a direct caller would (signature put-retry-after-failed-open); a stream whose writer cannot be constructed fails every Put",
+			"the results of Has and of the first Close, the error-ness of Put and the argument of the callbacks are recorded (outcomes beyond-statement:has / close-error / put-result / callback-arg), not asserted: the property fixes the output, the callback bookkeeping and the closed state",
+			"a Put that fails and starts nothing (no write, nothing created) does not start the reference either when it follows a failed initialisation of a path (outcome put-retry-after-failed-open when a direct writer could be created by then) or has a non-CID key (outcome invalid-first-put-starts-nothing); 'no output' stays asserted until a Put starts the output; a stream whose writer cannot be constructed fails every Put",
+			"a deferred writer that opens its path where os.OpenFile fails is compared with a direct writer from that Put on (outcome open-more-permissive)",
 			"write faults of the stream are C16's subject and are not injected here",
 		},
 	})
